@@ -308,6 +308,22 @@ class C08(Check):
             if opts.get("normalize_factors"):
                 self.check_cp_norm(tcp, True, viol)
                 self.check_cp_norm(mcp, True, viol)
+                # "the scale is carried by the weights": CMTF normalises its two outputs once, after the last sweep, so the normalised
+                # outputs represent exactly the tensors of the same run without normalisation
+                try:
+                    from tensorly.decomposition._cmtf_als import coupled_matrix_tensor_3d_factorization as cmtf
+
+                    np.random.seed(20260927)
+                    Y = itm.data_tensor(fam, (shape[0], 3), 2, case["seed"] + 50)
+                    o2 = {k: v for k, v in opts.items() if k != "normalize_factors"}
+                    t0, m0, _ = cmtf(X, Y, rank, n_iter_max=nit, tol=0 if tol is None else tol, **o2)
+                    for nm, a, b in (("tensor", tcp, t0), ("matrix", mcp, m0)):
+                        da, db = itm.cp_dense(a[0], a[1]), itm.cp_dense(b[0], b[1])
+                        if np.abs(da - db).max() > 1e-9 * max(1.0, np.abs(db).max()):
+                            viol(f"normalised-{nm}-output-represents-another-tensor",
+                                 f"{nm} output with normalize_factors=True differs from the un-normalised run by {np.abs(da - db).max():.3e}")
+                except np.linalg.LinAlgError:
+                    ctx.count("guarded_out:cmtf-unnormalised-twin-singular")
         elif entry == "parafac2":
             w, fs, projs = res
             R = rank
